@@ -1,6 +1,7 @@
 SPECIFICATION GSpec
 CONSTANTS Devs = {}
-          Cases <- GThorough
+          Cases <- GSel
+          Family = "GThorough"
           GF = 4
           FPKeys = {}
 INVARIANTS Emit1 StackIsRecursive EmitSafe EmitOnce NoFalseNegative CountRight
